@@ -60,6 +60,16 @@ NARROW_ONLY = ['svb_unchecked_calculate_new_capacity', 'svb_append_element__pcE'
 add(_c('u8', defines=['NDEBUG', 'VT_SIZE_T=std::uint8_t'], only=NARROW_ONLY, size_type='unsigned char',
        model_defines={'SIZE_T_MAX_CFG': 'UCHAR_MAX', 'DIFF_T_MAX_CFG': 'SCHAR_MAX'}, alloc_max_bound='255ul', cap_bound='255u', abbr_map={'uc': 'ul', 'sc': 'l'}, facts=dict(_PF, NARROW=1)))
 
+# trivially copyable twin (C13): the memcpy / memmove / std::fill fast paths under the same contracts
+TRIV_ONLY = ['svb_append_element__pcE', 'svb_append_copies', 'svb_request_capacity', 'svb_shrink_to_size', 'svb_emplace_into_current__pE_pcE',
+             'svb_emplace_into_reallocation__pE_pcE', 'svb_erase_range', 'svb_erase_at', 'svb_erase_last', 'svb_erase_all', 'svb_assign_with_copies',
+             'svb_assign_with_range__pcE_pcE', 'svb_copy_assign_default__pcsvb', 'svb_move_assign_default__psvb', 'svb_swap_default', 'svb_ctor__ul_pcE_pcA',
+             'svb_ctor__ul_pcA', 'svb_ctor__pcE_pcE_pcA', 'svb_ctor__psvb', 'svb_dtor', 'svb_append_range__strong_pcE_pcE', 'svb_resize_with__ul', 'svb_resize_with__ul_pcE',
+             'svb_insert_copies', 'ai_uninitialized_fill__pE_pE_pcE']
+add(_c('triv', defines=['NDEBUG', 'VT_TRIVIAL'], only=TRIV_ONLY,
+       model_defines={'COPY_MAY_THROW': 0, 'DEFAULT_MAY_THROW': 0, 'ASSIGN_COPY_MAY_THROW': 0, 'ELEM_TRIVIAL': 1},
+       facts=dict(_PF, TRIVIAL=1)))
+
 # the configuration class excluded everywhere else: inline capacity larger than max_size () (known finding KF-C12-1)
 add(_c('kf_inline_gt_max', model_defines={'KF_INLINE_EXCEEDS_MAX_SIZE': 1}, only=['svb_append_element__pcE'], props=['C12'],
        facts={'MOVE_NOEXCEPT': 1, 'COPYABLE': 1, 'RELOCATE_WITH_MOVE': 1, 'POCCA': 0, 'POCMA': 0, 'POCS': 0, 'ALWAYS_EQUAL': 0}))
@@ -91,9 +101,9 @@ _LEAVES = ['ai_destroy_range__pE_pE', 'ai_uninitialized_fill__pE_pE_pcE', 'ai_de
            'ai_default_uninitialized_copy__mpE_mpE_pE', 'ai_default_uninitialized_copy__pcE_pcE_pE', 'ai_external_range_length__pcE_pcE']
 _CORE = ['svb_append_element__pcE', 'svb_append_element__pE', 'svb_append_copies', 'svb_request_capacity', 'svb_shrink_to_size',
          'svb_emplace_into_current__pE_pcE', 'svb_emplace_into_reallocation__pE_pcE', 'svb_erase_range', 'svb_erase_at', 'svb_erase_last',
-         'svb_erase_all', 'svb_erase_to_end', 'svb_assign_with_copies', 'svb_copy_assign_default__pcsvb', 'svb_move_assign_default__psvb',
-         'svb_swap_default', 'svb_ctor__ul_pcE_pcA', 'svb_ctor__ul_pcA', 'svb_ctor__pcE_pcE_pcA', 'svb_ctor__psvb', 'svb_ctor__pcA', 'svb_dtor',
-         'svb_append_range__strong_pcE_pcE']
+         'svb_erase_all', 'svb_erase_to_end', 'svb_assign_with_copies',
+         'svb_ctor__ul_pcE_pcA', 'svb_ctor__ul_pcA', 'svb_ctor__pcE_pcE_pcA', 'svb_ctor__psvb', 'svb_ctor__pcA', 'svb_dtor']
+_CORE2 = ['svb_copy_assign_default__pcsvb', 'svb_move_assign_default__psvb', 'svb_swap_default', 'svb_append_range__strong_pcE_pcE']
 _TMOVE = ['svb_append_element__pcE', 'svb_request_capacity', 'svb_shrink_to_size', 'svb_emplace_into_reallocation__pE_pcE', 'svb_append_range__strong_pcE_pcE',
           'ai_default_uninitialized_copy__pE_pE_pE']
 _OBS = ['sv_size', 'sv_capacity', 'sv_max_size', 'sv_empty', 'sv_data__v', 'sv_begin__v', 'sv_end__v', 'sv_inlined', 'sv_inlinable', 'sv_at__ul', 'sv_op_index__ul']
@@ -101,11 +111,12 @@ _PUB = ['sv_push_back__pcE', 'sv_push_back__pE', 'sv_emplace_back__pcE', 'sv_pop
         'sv_insert__svcit_ul_pcE', 'sv_erase__svcit', 'sv_erase__svcit_svcit', 'sv_assign__ul_pcE', 'sv_append__pcE_pcE']
 _ALLOC = ['svb_copy_assign__pcsvb', 'svb_copy_assign_default__pcsvb', 'svb_move_assign_default__psvb', 'svb_swap_default', 'svb_ctor__psvb', 'sv_get_allocator']
 _LEAVES_Q = [l for l in _LEAVES if l != 'ai_default_uninitialized_copy__pcE_pcE_pE']
-_GLOBAL = {'main': _LEAVES_Q + _CORE, 'tmove': _TMOVE}
+_TMOVE_Q = ['svb_emplace_into_reallocation__pE_pcE', 'svb_shrink_to_size', 'svb_request_capacity']
+_GLOBAL = {'main': _LEAVES_Q + _CORE, 'tmove': _TMOVE_Q}
 QUICK = {
-    'C01': {'main': _CORE + _PUB + ['sv_at__ul', 'sv_at__ul_c', 'sv_op_index__ul', 'sv_front__v', 'sv_back__v']},
-    'C02': {'main': _CORE + _OBS + ['sv_shrink_to_fit'], 'tmove': _TMOVE, 'n0': ['svb_append_element__pcE', 'svb_shrink_to_size', 'sv_inlined']},
-    'C03': _GLOBAL, 'C04': dict(_GLOBAL, pair_lt=['svb_move_assign_default__psvbM']), 'C06': _GLOBAL,
+    'C01': {'main': _CORE + _CORE2 + _PUB + ['sv_at__ul', 'sv_at__ul_c', 'sv_op_index__ul', 'sv_front__v', 'sv_back__v']},
+    'C02': {'main': _CORE + _OBS + ['sv_shrink_to_fit'], 'tmove': _TMOVE_Q, 'n0': ['svb_append_element__pcE', 'sv_inlined']},
+    'C03': _GLOBAL, 'C04': dict(_GLOBAL, main=_LEAVES_Q + _CORE + ['svb_move_assign_default__psvb'], pair_lt=['svb_move_assign_default__psvbM']), 'C06': dict(_GLOBAL, main=_LEAVES_Q + _CORE + ['svb_swap_default']),
     'C12': dict(tmove=['svb_append_element__pcE', 'svb_request_capacity'], kf_inline_gt_max=['svb_append_element__pcE'], main=['ai_uninitialized_fill__pE_pE_pcE', 'ai_external_range_length__pcE_pcE', 'svb_unchecked_calculate_new_capacity', 'svb_append_element__pcE', 'svb_append_copies', 'svb_request_capacity',
                       'svb_emplace_into_reallocation__pE_pcE', 'svb_assign_with_copies', 'svb_ctor__ul_pcE_pcA', 'svb_ctor__pcE_pcE_pcA', 'svb_append_range__strong_pcE_pcE',
                       'svb_insert_copies@realloc', 'sv_max_size', 'sv_reserve'],
